@@ -603,10 +603,13 @@ func refHolds(d bson.D, f bson.D) bool { return refHoldsAt(d, f) }
 // ---------------------------------------------------------------------------
 // the domain D1–D4 and its finding classes (RefMatch.core_op with flags)
 
-type refFlags struct{ typeArray, exists, size, index bool }
+// index: the remaining finding class.  The three old* switches re-impose the
+// exclusions of the fan-out classes that were repaired in lungo; they are used
+// only to NAME a regression (coreDisagreementSignature), never for the domain.
+type refFlags struct{ index, oldTypeArray, oldExists, oldSize bool }
 
 var refStrict = refFlags{}
-var refLenient = refFlags{true, true, true, true}
+var refLenient = refFlags{index: true}
 
 func refD1(v interface{}) bool {
 	switch x := v.(type) {
@@ -739,24 +742,26 @@ func refCoreOp(fl refFlags, x interface{}, op string, root interface{}, p []stri
 		}
 		return true
 	case op == "$exists":
-		if !fan || fl.exists {
-			return true
-		}
-		for _, c := range refLookup(root, p) {
-			if a, ok := c.(bson.A); ok && len(a) == 0 {
-				return false
+		if fl.oldExists && fan {
+			for _, c := range refLookup(root, p) {
+				if a, ok := c.(bson.A); ok && len(a) == 0 {
+					return false
+				}
 			}
 		}
 		return true
 	case op == "$type":
 		spec, ok := refTypeSpec(x)
-		if !ok {
+		if fl.oldTypeArray && fan && ok && refHasTypeByte(spec, 4) {
 			return false
 		}
-		return !fan || fl.typeArray || !refHasTypeByte(spec, 4)
+		return ok
 	case op == "$size":
 		_, ok := refSizeArg(x)
-		return (!fan || fl.size) && ok
+		if fl.oldSize && fan {
+			return false
+		}
+		return ok
 	case op == "$all":
 		_, ok := x.(bson.A)
 		return ok && !fan
@@ -841,15 +846,6 @@ func refDomainClass(d bson.D, f bson.D) string {
 	}
 	if !refCoreGen(refLenient, d, f) {
 		return ""
-	}
-	if !refCoreGen(refFlags{false, true, true, true}, d, f) {
-		return "C10:type-array-under-fanout"
-	}
-	if !refCoreGen(refFlags{true, false, true, true}, d, f) {
-		return "C10:exists-under-fanout-empty-array"
-	}
-	if !refCoreGen(refFlags{true, true, false, true}, d, f) {
-		return "C10:size-under-fanout"
 	}
 	return "C10:null-with-index-into-document-array"
 }
